@@ -64,10 +64,24 @@ var findingMatchers = map[string]func(d *Disagreement) bool{
 	"optimize-variable-visible": func(d *Disagreement) bool {
 		return (d.Kind == "opt-diff" || d.Kind == "vars-opt-diff") && reIdentOPTIMIZE.MatchString(d.Script)
 	},
+	"switch-value-reevaluated": func(d *Disagreement) bool {
+		// only the rows whose switch value is the counting host function, and only the observations which the
+		// repeated evaluation changes (which arm runs, how often nx is called, what the script returns)
+		if !reSwitchNx.MatchString(d.Script) {
+			return false
+		}
+		switch d.Kind {
+		case "calls", "value", "vars", "calls-opt-diff":
+			return true
+		}
+		return false
+	},
 	"statement-in-operand-position": func(d *Disagreement) bool {
 		return d.Kind == "underflow-static" && d.Detail != nil && d.Detail["cause"] == "valueless-operand"
 	},
 }
+
+var reSwitchNx = regexp.MustCompile(`switch \( \(?nx\(\)`)
 
 // rootOfSquareLiteral: the script applies the root to an integer literal, or to a
 // bracketed expression made of integer literals and + - * / only (which the optimizer
